@@ -27,7 +27,12 @@ use whirlpool::errors::ErrorCode;
 enum O {
     Base(Op),
     InitReward { index: u8, v2: bool },
-    SetEmissions { index: u8, rate: u128, v2: bool },
+    SetEmissions {
+        index: u8,
+        #[serde(with = "crate::ops::u128_str")]
+        rate: u128,
+        v2: bool,
+    },
     Collect { pos: u8, index: u8, v2: bool },
     Drain { index: u8 }, // external: the reward authority's vault is (legitimately) emptied down to `keep` by nobody — modelled as a vault with few tokens from the start instead
 }
